@@ -108,3 +108,11 @@ def nan(case):
             if np.any(info.error_estimate[reg_] != 0):
                 bad.append(dict(singular=sing, problem='non-zero error at a regular point'))
     return dict(reproduced=bool(bad), failing=bad[:4], statement='Limit replaces only NaN entries, each by its own limit')
+
+
+@reg('C18.lconc')
+def lconc(case):
+    import numdifftools.limits as lm
+    from ndvc.concrete import limit_cases
+    cnt, bad = limit_cases(lm)
+    return dict(reproduced=bool(bad), failing=bad[:3], cases=cnt, statement='Limit / Residue recover g(z0) on concrete kernels')
